@@ -1,12 +1,15 @@
 package c11
 
-// C11(e): an operator logs in WHILE events are being recorded and broadcast.  The
-// newcomer's connection is made to fall behind in the middle of its replay (writes to
+// C11(e): an operator logs in WHILE the retained list is being appended to and rewritten.
+// The newcomer's connection is made to fall behind in the middle of its replay (writes to
 // it block after a generated number of bytes), so that the window "authenticated, replay
-// not finished" stays open until a producer has provably recorded an event inside it.
+// snapshot taken, replay not finished" stays open until the producers have provably
+// recorded an event and every rewrite of the retained list (listener removal, event
+// removal) has provably been carried out inside it.
 
 import (
 	"encoding/json"
+	"errors"
 	"fmt"
 	"strings"
 	"sync"
@@ -17,6 +20,8 @@ import (
 
 	"Havoc/pkg/agent"
 	"Havoc/pkg/events"
+	"Havoc/pkg/handlers"
+	"Havoc/pkg/packager"
 
 	"verifharness/internal/core"
 	"verifharness/internal/wsx"
@@ -27,13 +32,22 @@ type Producer struct {
 	N    int    `json:"n"`
 }
 
+type LsnE struct {
+	Pos     int    `json:"pos"`     // where in the history its Add event(s) sit (permille of the history length)
+	Via     bool   `json:"via"`     // started at a bystander's request (two retained Add events: the request and the announcement) instead of ListenerStart (one)
+	Ext     bool   `json:"ext"`     // External instead of SMB
+	Rewrite string `json:"rewrite"` // what happens to it while the newcomer is inside its replay: remove | error | none
+}
+
 type CaseE struct {
-	History   int        `json:"history"`    // retained events before anybody logs in
+	History   int        `json:"history"`    // retained events before the newcomer logs in
 	EventSize int        `json:"event_size"` // bytes of padding per retained event
 	Bystand   int        `json:"bystanders"` // operators already online (0-2)
-	PauseAt   int        `json:"pause_at"`   // the newcomer's connection blocks after this many bytes of its login traffic (permille of the expected replay size)
+	PauseAt   int        `json:"pause_at"`   // the newcomer's connection blocks after this many permille of its replay
 	Producers []Producer `json:"producers"`  // producer 0 is always of kind tslog
 	Before    int        `json:"before"`     // events every producer emits before the newcomer starts to log in
+	Listeners []LsnE     `json:"listeners"`
+	EvRemove  int        `json:"ev_remove"` // -1: none; otherwise EventRemove() of the retained event at this permille position, inside the window
 }
 
 func genE(t *rapid.T) CaseE {
@@ -55,6 +69,16 @@ func genE(t *rapid.T) CaseE {
 		c.Producers = append(c.Producers, Producer{Kind: k, N: rapid.IntRange(1, 5).Draw(t, "n")})
 	}
 	c.Before = rapid.IntRange(0, 2).Draw(t, "before")
+	nl := rapid.SampledFrom([]int{0, 1, 1, 2, 2, 3}).Draw(t, "listeners")
+	for i := 0; i < nl; i++ {
+		c.Listeners = append(c.Listeners, LsnE{
+			Pos:     rapid.SampledFrom([]int{0, 100, 400, 700, 1000}).Draw(t, "lpos"),
+			Via:     c.Bystand > 0 && rapid.Bool().Draw(t, "lvia"),
+			Ext:     rapid.Bool().Draw(t, "lext"),
+			Rewrite: rapid.SampledFrom([]string{"remove", "remove", "remove", "error", "none"}).Draw(t, "rewrite"),
+		})
+	}
+	c.EvRemove = rapid.SampledFrom([]int{-1, -1, 0, 200, 500, 950}).Draw(t, "ev-remove")
 	return c
 }
 
@@ -72,25 +96,121 @@ func runE(raw json.RawMessage) *core.Violation {
 	dirty := false
 	defer func() { fx.Release(dirty) }()
 	ts := fx.TS
+	T := packager.Type
 	w := &world{fx: fx, retained: []ent{{p: "init/profile"}}, removedViaRequest: map[string]bool{}}
 	for _, u := range pool {
 		w.free = append(w.free, u.Name)
 	}
-	pad := strings.Repeat("A", c.EventSize)
-	replayBytes := 0
-	for i := 0; i < c.History; i++ {
-		tk := fmt.Sprintf("pre-%d", i)
-		pk := events.Teamserver.Logger(tk + " " + pad)
-		ts.EventAppend(pk)
-		w.retained = append(w.retained, ent{p: "tslog/" + tk + " " + pad})
-		replayBytes += 120 + len(tk) + 1 + len(pad)
-	}
+	// ---- bystanders first (a listener can then be started at an operator's request)
 	for i := 0; i < c.Bystand; i++ {
 		if v := w.connect("replay"); v != nil {
 			return v
 		}
 	}
 	bystanders := append([]*mclient(nil), w.clients...)
+	bufs := map[*mclient][]string{}
+	pull := func(b *mclient, until string) *core.Violation {
+		for {
+			fr, ok, _ := b.c.Next(wsx.Watchdog)
+			if !ok {
+				return core.V("live|not-delivered|bystander", "operator %s: %q did not arrive; got %d frames", b.user, until, len(bufs[b]))
+			}
+			pk, err := wsx.Decode(fr)
+			if err != nil {
+				return core.V("frame|not-one-package", "%v", err)
+			}
+			p := wsx.Proj(pk)
+			if p == until {
+				return nil
+			}
+			bufs[b] = append(bufs[b], p)
+		}
+	}
+	nflush := 0
+	// flushAll: every bystander sends a one-shot chat; when all have all echoes, every
+	// handler has finished what it was asked before and everything broadcast before has arrived
+	flushAll := func() *core.Violation {
+		nflush++
+		for _, b := range bystanders {
+			b.c.SendJSON(wsx.BarrierPkg(b.user, fmt.Sprintf("flush-%d", nflush)))
+		}
+		for _, b := range bystanders {
+			for _, s := range bystanders {
+				// echoes of the others arrive in some order: pull until this one, keeping the rest
+				want := "!chat/" + s.user + "/" + fmt.Sprintf("flush-%d", nflush)
+				found := false
+				for _, p := range bufs[b] {
+					if p == want {
+						found = true
+					}
+				}
+				if !found {
+					if v := pull(b, want); v != nil {
+						return v
+					}
+				}
+			}
+		}
+		return nil
+	}
+
+	// ---- history, with the listeners' Add events at their generated positions
+	pad := strings.Repeat("A", c.EventSize)
+	replayBytes := 0
+	type lsn struct {
+		LsnE
+		name string
+		idx  int // index of the history event before which it was started
+	}
+	var lsns []*lsn
+	for i, l := range c.Listeners {
+		lsns = append(lsns, &lsn{LsnE: l, name: fmt.Sprintf("EL%d", i+1), idx: l.Pos * c.History / 1000})
+	}
+	startListener := func(l *lsn) *core.Violation {
+		if l.Via && len(bystanders) > 0 {
+			b := bystanders[0]
+			info := map[string]any{"Name": l.name, "Protocol": "Smb", "PipeName": "pipe-" + l.name}
+			if l.Ext {
+				info = map[string]any{"Name": l.name, "Protocol": "External", "Endpoint": "ep-" + l.name}
+			}
+			b.c.SendJSON(wsx.Pkg(T.Listener.Type, b.user, T.Listener.Add, info))
+			if v := flushAll(); v != nil {
+				return v
+			}
+			// (the recorded request is a raw Add, left out of every comparison)
+		} else {
+			var err error
+			if l.Ext {
+				err = ts.ListenerStart(handlers.LISTENER_EXTERNAL, handlers.ExternalConfig{Name: l.name, Endpoint: "ep-" + l.name})
+			} else {
+				err = ts.ListenerStart(handlers.LISTENER_PIVOT_SMB, handlers.SMBConfig{Name: l.name, PipeName: "pipe-" + l.name})
+			}
+			if err != nil {
+				return core.V("harness|listener-start", "%v", err)
+			}
+		}
+		w.retained = append(w.retained, ent{p: "ladd//" + l.name + "/Online", lname: l.name})
+		replayBytes += 300
+		return nil
+	}
+	for i := 0; i <= c.History; i++ {
+		for _, l := range lsns {
+			if l.idx == i {
+				if v := startListener(l); v != nil {
+					return v
+				}
+			}
+		}
+		if i == c.History {
+			break
+		}
+		tk := fmt.Sprintf("pre-%d", i)
+		pk := events.Teamserver.Logger(tk + " " + pad)
+		ts.EventAppend(pk)
+		ts.EventBroadcast("", pk)
+		w.retained = append(w.retained, ent{p: "tslog/" + tk + " " + pad})
+		replayBytes += 120 + len(tk) + 1 + len(pad)
+	}
 
 	// ---- producers
 	type prod struct {
@@ -113,6 +233,15 @@ func runE(raw json.RawMessage) *core.Violation {
 		}
 		prods = append(prods, q)
 	}
+	projOf := func(q *prod, tk string) string {
+		switch q.Kind {
+		case "console":
+			return "out/0badc0de/" + tk
+		case "chat":
+			return "chat/" + q.sender.user + "/" + tk
+		}
+		return "tslog/" + tk
+	}
 	emit := func(q *prod, j int, appended func()) {
 		tk := q.toks[j]
 		switch q.Kind {
@@ -129,46 +258,24 @@ func runE(raw json.RawMessage) *core.Violation {
 			ts.EventBroadcast("", pk)
 		}
 	}
-	// a chat producer's events are dispatched by its operator's handler: a one-shot chat of
-	// the same operator, echoed back, proves they all have been
-	bufs := map[*mclient][]string{}
-	pull := func(b *mclient, until string) *core.Violation {
-		for {
-			fr, ok, _ := b.c.Next(wsx.Watchdog)
-			if !ok {
-				return core.V("live|not-delivered|bystander", "operator %s: %q did not arrive; got %d frames", b.user, until, len(bufs[b]))
-			}
-			pk, err := wsx.Decode(fr)
-			if err != nil {
-				return core.V("frame|not-one-package", "%v", err)
-			}
-			p := wsx.Proj(pk)
-			if p == until {
-				return nil
-			}
-			bufs[b] = append(bufs[b], p)
-		}
-	}
-	flush := func(tag string) *core.Violation {
-		for i, q := range prods {
-			if q.Kind == "chat" {
-				fl := fmt.Sprintf("flush-%s-%d", tag, i)
-				q.sender.c.SendJSON(wsx.BarrierPkg(q.sender.user, fl))
-				if v := pull(q.sender, "!chat/"+q.sender.user+"/"+fl); v != nil {
-					return v
-				}
-			}
-		}
-		return nil
-	}
-	// events before the newcomer starts (sequential: they are simply part of the history)
+	// events before the newcomer starts: sequential, they are simply part of the history
 	for _, q := range prods {
 		for j := 0; j < c.Before; j++ {
 			emit(q, j, nil)
+			if q.Kind == "chat" {
+				if v := flushAll(); v != nil {
+					return v
+				}
+			}
+			w.retained = append(w.retained, ent{p: projOf(q, q.toks[j])})
+			replayBytes += 200
 		}
 	}
-	if v := flush("before"); v != nil {
+	if v := flushAll(); v != nil {
 		return v
+	}
+	for _, b := range bystanders {
+		bufs[b] = nil // everything so far belongs to the set-up
 	}
 
 	// ---- the newcomer, falling behind in the middle of its replay
@@ -180,17 +287,30 @@ func runE(raw json.RawMessage) *core.Violation {
 	mark := int64(400 + replayBytes*c.PauseAt/1000) // past the Success frame, inside the replay
 	nc.Peer.PauseAfter(mark)
 	nc.SendJSON(wsx.LoginPkg(user, "pw-"+user))
+	// the snapshot the newcomer is entitled to: the retained list now, ending with its own arrival
+	var snapshot []string
+	for _, e := range w.retained {
+		snapshot = append(snapshot, e.p)
+	}
+	snapshot = append(snapshot, "newuser/"+user)
 	deadline := time.Now().Add(wsx.Watchdog)
 	inWindow := false
+	var early []wsx.Frame // what the newcomer receives while we wait for the pause to take hold
 	for {
 		if nc.Peer.Paused() {
 			inWindow = true
 			break
 		}
-		if time.Now().After(deadline) {
-			break // the replay ended before the mark (or never started): the rest still runs, un-paused
+		if fr, ok, _ := nc.Next(200 * time.Microsecond); ok {
+			early = append(early, fr)
+			if pk, err := wsx.Decode(fr); err == nil && wsx.Proj(pk) == "newuser/"+user {
+				break // the replay is through: the mark lay beyond its end
+			}
+			continue
 		}
-		time.Sleep(100 * time.Microsecond)
+		if time.Now().After(deadline) {
+			break
+		}
 	}
 	if !inWindow {
 		wsx.Obs("e:replay-ended-before-pause-mark")
@@ -198,10 +318,18 @@ func runE(raw json.RawMessage) *core.Violation {
 	} else {
 		wsx.Obs("e:paused-inside-replay")
 	}
-	// the producers run now; producer 0 reports when it has recorded its first event,
-	// which (the newcomer being stuck inside its replay) is certainly after the
-	// newcomer's replay snapshot was taken
+
+	// ---- inside the window: producers, and everything that rewrites the retained list
+	window := map[string]int{} // events that exist only because of the window: expected exactly once, live
+	var wmu sync.Mutex
+	expectLive := func(p string) { wmu.Lock(); window[p] = 0; wmu.Unlock() }
+	for _, q := range prods {
+		for j := c.Before; j < len(q.toks); j++ {
+			expectLive(projOf(q, q.toks[j]))
+		}
+	}
 	recorded := make(chan struct{})
+	rewritten := make(chan struct{})
 	var once sync.Once
 	var wg sync.WaitGroup
 	for i, q := range prods {
@@ -218,12 +346,47 @@ func runE(raw json.RawMessage) *core.Violation {
 			}
 		}()
 	}
-	select {
-	case <-recorded:
-	case <-time.After(wsx.Watchdog):
-		dirty = true
-		nc.Peer.Resume()
-		return core.V("hang|record-while-newcomer-replays", "EventAppend did not return within %v while a newcomer's replay was in progress", wsx.Watchdog)
+	var removed []string
+	for _, l := range lsns {
+		switch l.Rewrite {
+		case "remove":
+			removed = append(removed, l.name)
+			expectLive("lrem//" + l.name)
+		case "error":
+			expectLive("lerr/" + l.name + "/boom-" + l.name)
+		}
+	}
+	wg.Add(1)
+	go func() {
+		defer wg.Done()
+		// exactly what DispatchEvent does for Listener/Remove, with a signal after the prune
+		for _, name := range removed {
+			ts.ListenerRemove(name)
+		}
+		if c.EvRemove >= 0 {
+			// (position within the history part that certainly exists: the pre-i events)
+			ts.EventRemove(1 + c.EvRemove*(c.History-1)/1000)
+		}
+		close(rewritten)
+		for _, name := range removed {
+			p := events.Listener.ListenerRemove(name)
+			ts.EventAppend(p)
+			ts.EventBroadcast("", p)
+		}
+		for _, l := range lsns {
+			if l.Rewrite == "error" {
+				ts.EventListenerError(l.name, errors.New("listen: boom-"+l.name))
+			}
+		}
+	}()
+	for _, ch := range []chan struct{}{recorded, rewritten} {
+		select {
+		case <-ch:
+		case <-time.After(wsx.Watchdog):
+			dirty = true
+			nc.Peer.Resume()
+			return core.V("hang|record-or-rewrite-while-newcomer-replays|"+core.HavocFrame(dump()), "EventAppend / ListenerRemove / EventRemove did not return within %v while a newcomer's replay was in progress", wsx.Watchdog)
+		}
 	}
 	nc.Peer.Resume()
 	done := make(chan struct{})
@@ -234,7 +397,7 @@ func runE(raw json.RawMessage) *core.Violation {
 		dirty = true
 		return core.V("hang|producers-while-newcomer-replays|"+core.HavocFrame(dump()), "the producers did not finish within %v after the newcomer's connection accepted data again", 2*wsx.Watchdog)
 	}
-	if v := flush("after"); v != nil {
+	if v := flushAll(); v != nil {
 		return v
 	}
 	if nc.Peer.WriteFailed() {
@@ -247,7 +410,13 @@ func runE(raw json.RawMessage) *core.Violation {
 	nc.SendJSON(wsx.BarrierPkg(user, "end"))
 	var seq []string
 	for {
-		fr, ok, closed := nc.Next(wsx.Watchdog)
+		var fr wsx.Frame
+		ok, closed := true, false
+		if len(early) > 0 {
+			fr, early = early[0], early[1:]
+		} else {
+			fr, ok, closed = nc.Next(wsx.Watchdog)
+		}
 		if !ok {
 			return core.V("window|newcomer-stream-incomplete", "the newcomer's stream ended before its final barrier came back (closed=%v, %v); %d frames", closed, nc.ReadErr, len(seq))
 		}
@@ -259,84 +428,105 @@ func runE(raw json.RawMessage) *core.Violation {
 		if p == "!chat/"+user+"/end" {
 			break
 		}
+		if isRawAdd(p) || strings.HasPrefix(p, "!chat/") {
+			continue // recorded Add requests; the bystanders' flush chats
+		}
 		seq = append(seq, p)
 	}
-	tokOf := func(p string) string {
-		for _, pre := range []string{"pre-", "ev-p"} {
-			if i := strings.Index(p, pre); i >= 0 {
-				t := p[i:]
-				if j := strings.IndexAny(t, "/ "); j >= 0 {
-					t = t[:j]
-				}
-				return t
-			}
+	short := func(p string) string {
+		if len(p) > 60 {
+			return p[:60] + "..."
 		}
-		return ""
+		return p
 	}
 	if len(seq) == 0 || seq[0] != "init/success" {
 		return core.V("window|no-success-first", "newcomer's first frame: %v", clipL(seq))
 	}
-	count := map[string]int{}
-	nextPre := 0
-	for _, p := range seq {
-		tk := tokOf(p)
-		if tk == "" {
-			continue
+	ctx := fmt.Sprintf("(history %d events of %d bytes, paused at %d permille, listeners %+v, EventRemove at %d)", c.History, c.EventSize, c.PauseAt, c.Listeners, c.EvRemove)
+	if inWindow {
+		// The snapshot was taken before anything of the window happened: it arrives exactly
+		// once and in order (including the Add events of listeners removed meanwhile - the
+		// removal itself follows live).  Everything of the window arrives exactly once, live.
+		pos := map[string]int{}
+		for i, p := range snapshot {
+			pos[p] = i
 		}
-		count[tk]++
-		if strings.HasPrefix(tk, "pre-") {
-			if tk != fmt.Sprintf("pre-%d", nextPre) {
-				return core.V("replay|history-out-of-order", "newcomer's replay: got %q where pre-%d was next", tk, nextPre)
+		idx := 0
+		for n, p := range seq[1:] {
+			if idx < len(snapshot) && p == snapshot[idx] {
+				idx++
+				continue
 			}
-			nextPre++
-		}
-	}
-	if nextPre != c.History {
-		return core.V("replay|history-incomplete", "newcomer's replay holds %d of the %d events recorded before anybody logged in", nextPre, c.History)
-	}
-	for i, q := range prods {
-		for j, tk := range q.toks {
-			if count[tk] == 0 {
-				when := "while-newcomer-was-replaying"
-				if j < c.Before {
-					when = "before-newcomer-logged-in"
+			if cnt, ok := window[p]; ok {
+				if cnt > 0 {
+					return core.V("window|event-twice|recorded-inside-the-window", "the newcomer received %q twice (frame %d) %s", short(p), n+1, ctx)
 				}
-				return core.V("window|event-never-reaches-newcomer|"+when, "event %q (producer %d, %s, emitted %s; paused-inside-replay=%v) reached neither the newcomer's replay nor its live stream, although it was recorded and broadcast and the newcomer had authenticated; the newcomer got %d frames, %d of them tagged events", tk, i, q.Kind, strings.ReplaceAll(when, "-", " "), inWindow, len(seq), len(count))
+				window[p]++
+				continue
 			}
-			if j < c.Before && count[tk] != 1 {
-				return core.V("replay|duplicate", "event %q recorded before the newcomer logged in arrived %d times", tk, count[tk])
+			if i, ok := pos[p]; ok {
+				if i < idx {
+					return core.V("window|event-twice|retained-before-login", "the newcomer received retained event %d %q a second time (frame %d; %d of %d retained events delivered so far) %s", i, short(p), n+1, idx, len(snapshot), ctx)
+				}
+				return core.V("window|retained-event-skipped", "the newcomer's replay jumped from retained event %d to %d: %q never arrived (frame %d) %s", idx, i, short(snapshot[idx]), n+1, ctx)
+			}
+			return core.V("window|unexpected-event", "the newcomer received %q (frame %d), which is neither in its replay snapshot nor an event of the window %s", short(p), n+1, ctx)
+		}
+		if idx != len(snapshot) {
+			return core.V("window|retained-event-missing", "the newcomer's replay ended after %d of %d retained events; next would have been %q %s", idx, len(snapshot), short(snapshot[idx]), ctx)
+		}
+		for p, cnt := range window {
+			if cnt == 0 {
+				return core.V("window|event-never-reaches-newcomer|while-newcomer-was-replaying", "%q was recorded and broadcast while the authenticated newcomer was inside its replay and reached it neither way %s", short(p), ctx)
+			}
+		}
+	} else {
+		// not provably inside the window: only completeness
+		have := map[string]bool{}
+		for _, p := range seq {
+			have[p] = true
+		}
+		for _, p := range snapshot {
+			if !have[p] && !strings.HasPrefix(p, "ladd//") {
+				return core.V("window|retained-event-missing", "retained event %q never reached the newcomer %s", short(p), ctx)
+			}
+		}
+		for p := range window {
+			if !have[p] {
+				return core.V("window|event-never-reaches-newcomer|while-newcomer-was-replaying", "%q never reached the newcomer %s", short(p), ctx)
 			}
 		}
 	}
-	// ---- bystanders: newuser, every event exactly once (each producer's order kept), the barrier
-	total := 0
-	for _, q := range prods {
-		total += len(q.toks) - c.Before
-	}
+	// ---- bystanders: every event of the window exactly once, each producer's order kept
 	for _, b := range bystanders {
 		if v := pull(b, "!chat/"+user+"/end"); v != nil {
 			return v
 		}
 		pos := make([]int, len(prods))
-		got := 0
+		seen := map[string]int{}
 		for _, p := range bufs[b] {
-			tk := tokOf(p)
-			if !strings.HasPrefix(tk, "ev-p") {
-				continue
+			if _, ok := window[p]; ok {
+				seen[p]++
+				if seen[p] > 1 {
+					return core.V("live|duplicate|bystander", "operator %s received %q twice", b.user, short(p))
+				}
 			}
-			var pi, pj int
-			fmt.Sscanf(tk, "ev-p%d-%d", &pi, &pj)
-			if pj < c.Before || pi >= len(prods) {
-				continue // emitted (and delivered) before the newcomer started
+			for pi, q := range prods {
+				nx := c.Before + pos[pi]
+				if nx < len(q.toks) && p == projOf(q, q.toks[nx]) {
+					pos[pi]++
+				}
 			}
-			if pj != c.Before+pos[pi] {
-				return core.V("live|order-or-duplicate|bystander", "operator %s: event %q of producer %d arrived where number %d was next", b.user, tk, pi, c.Before+pos[pi])
-			}
-			pos[pi]++
-			got++
 		}
-		if got != total {
-			return core.V("live|not-delivered|bystander", "operator %s received %d of %d events emitted while the newcomer logged in", b.user, got, total)
+		for p := range window {
+			if seen[p] == 0 {
+				return core.V("live|not-delivered|bystander", "operator %s never received %q %s", b.user, short(p), ctx)
+			}
+		}
+		for pi, q := range prods {
+			if c.Before+pos[pi] != len(q.toks) {
+				return core.V("live|order|bystander", "operator %s: the events of producer %d did not arrive in the order they were emitted", b.user, pi)
+			}
 		}
 	}
 	return nil
@@ -356,20 +546,42 @@ func classifyE(c CaseE) core.Class {
 		kinds[p.Kind] = true
 		cl.Labels = append(cl.Labels, "producer:"+p.Kind)
 	}
+	rem, before, after, two := false, false, false, false
+	for _, l := range c.Listeners {
+		cl.Labels = append(cl.Labels, "listener-rewrite:"+l.Rewrite)
+		if l.Rewrite == "remove" {
+			rem = true
+			// the Add event has been replayed already when it sits before the pause point
+			if l.Pos < c.PauseAt {
+				before = true
+				cl.Labels = append(cl.Labels, "removal-before-pause-point(Add already replayed)")
+			} else {
+				after = true
+				cl.Labels = append(cl.Labels, "removal-after-pause-point(Add not yet replayed)")
+			}
+			if l.Via && c.Bystand > 0 {
+				two = true
+				cl.Labels = append(cl.Labels, "removal-of-two-Add-events(request+announcement)")
+			}
+		}
+	}
+	if c.EvRemove >= 0 {
+		cl.Labels = append(cl.Labels, "EventRemove-inside-window")
+	}
 	cl.Labels = append(cl.Labels, fmt.Sprintf("pause-at-permille:%d", c.PauseAt), fmt.Sprintf("event-size:%d", c.EventSize), fmt.Sprintf("bystanders:%d", c.Bystand))
 	cl.NonTrivial = true
-	cl.Fingerprint = fmt.Sprintf("h=%d|sz=%d|by=%d|pause=%d|np=%d|console=%v|chat=%v|before=%v", c.History/40, c.EventSize, c.Bystand, c.PauseAt, len(c.Producers), kinds["console"], kinds["chat"], c.Before > 0)
+	cl.Fingerprint = fmt.Sprintf("h=%d|sz=%d|by=%d|pause=%d|np=%d|console=%v|chat=%v|before=%v|rem=%v/%v/%v/%v|evrem=%v", c.History/40, c.EventSize, c.Bystand, c.PauseAt, len(c.Producers), kinds["console"], kinds["chat"], c.Before > 0, rem, before, after, two, c.EvRemove >= 0)
 	return cl
 }
 
 func TestC11e(t *testing.T) {
 	core.Run(t, core.Spec[CaseE]{
 		Property: "C11", Sub: "e",
-		Rule: "8-120 retained events of 0-20000 bytes, 0-2 operators online, then a newcomer logs in over a connection that stops accepting data after a generated fraction of its replay (0.1%-90%) while 1-3 producers (EventAppend+EventBroadcast, AgentConsole, a bystander's chat) emit 1-5 events each; the connection accepts data again only after producer 0 has recorded an event (so at least one event is recorded after the newcomer's replay snapshot and before the replay has finished). Oracle (judged on everything the newcomer received before the echo of its final one-shot chat): Success first; all events recorded before anybody logged in, in order; every event emitted before or while the newcomer logged in at least once (replay or live); bystanders receive every event exactly once in each producer's order. All cases non-trivial",
+		Rule: "0-2 operators online; 8-120 retained events of 0-20000 bytes with the Add events of 0-3 listeners (SMB / External; ListenerStart = one Add event, or a bystander's request = request + announcement) at generated positions; then a newcomer logs in over a connection that stops accepting data after a generated fraction of its replay (0.1%-90%). While it is provably blocked inside the replay: 1-3 producers (EventAppend+EventBroadcast, AgentConsole, a bystander's chat) emit 1-5 events each, and every operation that rewrites the retained list is carried out - ListenerRemove of listeners whose Add events sit before / after the pause point, EventRemove of a retained event, EventListenerError. The connection accepts data again only after producer 0 has recorded an event and the removals have returned. Oracle (everything the newcomer received before the echo of its final one-shot chat): Success; then its replay snapshot - the retained list as it was when it logged in, including the Add events of listeners removed meanwhile - exactly once and in order, interleaved with the events of the window (producers' events, the Remove and Error events) exactly once each, and nothing else; bystanders receive every event of the window exactly once in each producer's order. All cases non-trivial",
 		Gen:   genE, Check: checkE, Classify: classifyE,
 		Assumptions: []string{
-			"inside the window an event may reach the newcomer twice (replayed and live) and live events may overtake replayed ones, so only at-least-once is demanded there",
-			"if the pause outlasts the teamserver's own write deadline (overloaded machine) the case gives no verdict",
+			"what a newcomer that is already inside its replay sees of a concurrent removal is taken from HEAD: its snapshot is unaffected, the removal follows as a live event (which may overtake the replayed Add event)",
+			"if the replay ended before the pause mark only completeness is demanded; if the pause outlasts the teamserver's own write deadline (overloaded machine) the case gives no verdict",
 		},
 	})
 }
